@@ -1,6 +1,7 @@
 """C01 check configuration."""
 
 PROP = {
+    "thorough_scale": 4,
     "pkg": "internal/dnsforward",
     "files": ["dnsforward/common_world_test.go", "dnsforward/c01_test.go", "dnsforward/c01_runtime_test.go"],
     "level": "exploration",
